@@ -25,22 +25,32 @@ def check_case(c, V, stats):
                         what="number of atomic statements differs from the product of the alternatives")
             continue
         base = c["id"] if len(c["tabs"]) == 1 else c["id"] + b"." + str(j + 1).encode()
-        bad = None
-        for i, (row, ch) in enumerate(zip(own, choices)):
-            want_id = base if len(own) == 1 else base + b"." + str(i + 1).encode()
-            if row.get(b"Statement ID") != want_id:
-                bad = ("rows:identifier-off-sequence", {"row": i, "id": row.get(b"Statement ID")}, {"id": want_id})
-                break
+        want_ids = [base] if len(own) == 1 else [base + b"." + str(i + 1).encode() for i in range(len(own))]
+        if [r.get(b"Statement ID") for r in own] != want_ids:
+            V.violation("rows:identifier-off-sequence", case, observed={"ids": repr([r.get(b"Statement ID") for r in own][:5])}, expected={"ids": repr(want_ids[:5])},
+                        what="atomic statements are not numbered id.1 ... id.N")
+            continue
+
+        def carries(row, ch):
             for comp, text in ch:
                 if text is None:
                     continue
                 if adjust_py(text, False) not in row.get(comp, b"").replace(b"''", b"'") and adjust_py(text, gs) not in row.get(comp, b""):
-                    bad = ("rows:choice-not-in-row", {"row": i, "component": comp, "cell": row.get(comp)}, {"contains": text})
+                    return (comp, text)
+            return None
+        bad = None
+        if any(carries(row, ch) for row, ch in zip(own, choices)):
+            # not in product order: the property asks for a one-to-one assignment only
+            free = list(range(len(own)))
+            for ch in choices:
+                hit = next((k for k in free if carries(own[k], ch) is None), None)
+                if hit is None:
+                    miss = carries(own[free[0]], ch) if free else None
+                    bad = ("rows:choice-without-row", {"choice": repr(ch)[:300], "first_free_row_lacks": repr(miss)}, None)
                     break
-            if bad:
-                break
+                free.remove(hit)
         if bad:
-            V.violation(bad[0], case, observed=bad[1], expected=bad[2], what="a row does not carry the alternative the product assigns to it")
+            V.violation(bad[0], case, observed=bad[1], expected=bad[2], what="a combination of alternatives has no row of its own")
             continue
         # no atomic statement twice: rows whose choices differ must differ in a component cell
         keyrows = [tuple(sorted((k, v) for k, v in r.items() if k not in (b"Statement ID", b"Logical Linkage (Components)", b"Logical Linkage (Statements)"))) for r in own]
